@@ -42,7 +42,19 @@ Callee(kind) ==
     [] kind = "nested" ->
          <<Func("h", <<Param("n", "int")>>, <<"int">>, <<If1(CmpE(">", V("n"), N(0)), <<Def1("t", Bin("*", V("n"), N(3))), RetS(<<V("t")>>)>>), RetS(<<N(5)>>)>>),
            Func("f", <<Param("n", "int")>>, <<"int">>, <<Def1("t", Bin("+", CallE("h", <<V("n")>>), CallE("h", <<Bin("-", V("n"), N(1))>>))), Compound("tally", "+", V("t")), RetS(<<Bin("+", V("t"), CallE("h", <<N(0)>>))>>)>>)>>
-Kinds == {"branch", "loop", "slice", "multi", "nested"}
+    [] kind = "nestret" ->        \* nested loops left by a return from the INNER loop (n = 0: at once, n = 1: in the second round of the outer loop, n = 2: never)
+         <<Func("f", <<Param("n", "int")>>, <<"int">>,
+                <<Compound("tally", "+", N(1)),
+                  For3(Def1("r", N(0)), CmpE("<", V("r"), N(3)), Inc("r"), <<For3(Def1("c", N(0)), CmpE("<", V("c"), N(2)), Inc("c"), <<If1(CmpE("==", Bin("+", Bin("*", V("r"), N(2)), V("c")), Bin("*", V("n"), N(3))), <<RetS(<<Bin("+", Bin("*", V("r"), N(10)), V("c"))>>)>>)>>)>>),
+                  RetS(<<IntL("-1")>>)>>)>>
+    [] kind = "nestretp" ->       \* the same with condition and increment of the outer loop made visible (evaluation order, C04)
+         <<Func("next", <<Param("i", "int")>>, <<"int">>, <<P(<<S("inc"), V("i")>>), RetS(<<Bin("+", V("i"), N(1))>>)>>),
+           Func("below", <<Param("i", "int"), Param("m", "int")>>, <<"bool">>, <<P(<<S("cond"), V("i")>>), RetS(<<CmpE("<", V("i"), V("m"))>>)>>),
+           Func("f", <<Param("n", "int")>>, <<"int">>,
+                <<Compound("tally", "+", N(1)),
+                  For3(Def1("r", N(0)), CallE("below", <<V("r"), N(3)>>), Asg1("r", CallE("next", <<V("r")>>)), <<For3(Def1("c", N(0)), CmpE("<", V("c"), N(2)), Inc("c"), <<If1(CmpE("==", Bin("+", Bin("*", V("r"), N(2)), V("c")), Bin("*", V("n"), N(3))), <<RetS(<<Bin("+", Bin("*", V("r"), N(10)), V("c"))>>)>>)>>)>>),
+                  RetS(<<IntL("-1")>>)>>)>>
+Kinds == {"branch", "loop", "slice", "multi", "nested", "nestret", "nestretp"}
 RECURSIVE Seqs(_, _)
 Seqs(n, A) == IF n = 0 THEN {<<>>} ELSE {<<x>> \o s : x \in A, s \in Seqs(n - 1, A)}
 RECURSIVE Digits(_)
@@ -54,12 +66,22 @@ Calls == {CaseOf("hist/calls/" \o k \o "/" \o Digits(a), CallProg(k, a)) : k \in
 
 \* ---- loops entered again --------------------------------------------------------------------------------------------------------
 \* pat[k] = 9 means "no jump on run k"
-Inner(form, jump) ==
+Pre(nest) == CASE nest = "none" -> <<>>
+                [] nest = "cond" -> <<Def1("m", V("j")), ForCond(CmpE(">", V("m"), N(0)), <<Asg1("m", Bin("-", V("m"), N(2)))>>)>>
+                [] nest = "inf"  -> <<Def1("m", N(0)), ForInf(<<Inc("m"), If1(CmpE(">", V("m"), V("j")), <<BreakS>>)>>)>>
+                [] nest = "for3" -> <<Def1("m", N(0)), For3(Def1("q", N(0)), CmpE("<", V("q"), V("j")), Inc("q"), <<Compound("m", "+", V("q"))>>)>>
+InnerN(form, jump, nest) ==
   LET J == IF jump = "break" THEN BreakS ELSE ContinueS
-      body == <<If1(CmpE("==", V("j"), IndexE(V("pat"), V("k"))), <<J>>), P(<<S("in"), V("k"), V("j")>>)>> IN
+      body == Pre(nest) \o <<If1(CmpE("==", V("j"), IndexE(V("pat"), V("k"))), <<J>>)>> \o (IF nest = "none" THEN <<P(<<S("in"), V("k"), V("j")>>)>> ELSE <<P(<<S("in"), V("k"), V("j"), V("m")>>)>>) IN
   CASE form = "for3"  -> <<For3(Def1("j", N(0)), CmpE("<", V("j"), N(3)), Inc("j"), body)>>
     [] form = "while" -> <<Def1("j", IntL("-1")), ForCond(CmpE("<", V("j"), N(2)), <<Inc("j")>> \o body)>>
     [] form = "range" -> <<RangeS("j", "", SliceLit("int", <<N(5), N(6), N(7)>>), body)>>
+Inner(form, jump) == InnerN(form, jump, "none")
+LoopProgN(form, jump, nest, pat) == <<Def1("pat", SliceLit("int", [i \in 1..Len(pat) |-> N(pat[i])] \o <<N(1)>>)),
+                                      For3(Def1("k", N(0)), CmpE("<", V("k"), N(Len(pat) + 1)), Inc("k"), InnerN(form, jump, nest) \o <<P(<<S("run"), V("k")>>)>>)>>
+\* the jump stands BEHIND another loop of the same body (round 10: one field remembered whether "the" open loop has a flag, an inner loop overwrote it)
+LoopsNested == {CaseOf("hist/loopsnest/" \o f \o "/" \o j \o "/" \o ne \o "/" \o Digits(p), LoopProgN(f, j, ne, p))
+                : f \in {"for3", "while", "range"}, j \in {"break", "continue"}, ne \in {"cond", "inf", "for3"}, p \in Seqs(3, {9, 1}) \cup {<<2, 0, 2>>, <<0, 9, 0>>}}
 LoopProg(form, jump, pat) == <<Def1("pat", SliceLit("int", [i \in 1..Len(pat) |-> N(pat[i])] \o <<N(1)>>)),
                                For3(Def1("k", N(0)), CmpE("<", V("k"), N(Len(pat) + 1)), Inc("k"), Inner(form, jump) \o <<P(<<S("run"), V("k")>>)>>)>>
 Loops == {CaseOf("hist/loops/" \o f \o "/" \o j \o "/" \o Digits(p), LoopProg(f, j, p)) : f \in {"for3", "while", "range"}, j \in {"break", "continue"}, p \in Seqs(3, {9, 0, 1, 2})}
@@ -79,5 +101,5 @@ IterProg(form) == <<Def(<<"s", "acc">>, <<S(""), N(0)>>), Def1("xs", SliceLit("i
                      [] form = "forever" -> <<Def1("i", IntL("-1")), ForInf(<<Inc("i"), If1(CmpE(">", V("i"), N(5)), <<BreakS>>)>> \o IterBody)>>
                      [] form = "range" -> <<RangeS("i", "", SliceLit("string", <<S("p"), S("q"), S("r"), S("s"), S("t"), S("u")>>), IterBody)>>)
 Iters == {CaseOf("hist/iter/" \o f, IterProg(f)) : f \in {"for3", "while", "forever", "range"}}
-ASSUME ndJsonSerialize("fam.ndjson", SetToSeq(Calls \cup Loops \cup LoopsFn \cup Iters))
+ASSUME ndJsonSerialize("fam.ndjson", SetToSeq(Calls \cup Loops \cup LoopsFn \cup LoopsNested \cup Iters))
 =============================================================================
